@@ -68,24 +68,25 @@ CHECKS = {
     'C02': dict(
         text='One theorem per constraint kind equating the operational verifier (aggregate, then compare) with the '
              'documented meaning quantified over all non-null values (min/max for closed/open/fuzzy precision, sign, '
-             'string lengths, max_nulls, no_duplicates, type strict/sloppy, rex over an oracle), plus missing-field, '
+             'string lengths, max_nulls, no_duplicates, allowed_values, type strict/sloppy, rex over an oracle), plus missing-field, '
              'null-value, totals and independence theorems; verify_df on boundary-directed generated (frame, constraint '
              'set) pairs is compared verdict-by-verdict with the extracted model and with an independent statement of '
              'the documented meaning, including totals, to_frame() and str().',
         note='IEEE multiplication b*(1+-eps) and re.match are oracle values; pandas aggregates are validated by the '
-             'correspondence, not proved; allowed_values is covered by correspondence and oracle (its fast-path '
-             'pigeonhole lemma is not yet proved).',
+             'correspondence, not proved; allowed_values (verdict = every non-null value is allowed; the fast path is exact by '
+             'pigeonhole: C02_verify_allowed_values_spec) is stated for string columns.',
         technique='Coq proof (verify_*_spec iff-theorems over exact-integer reals) + extracted-model correspondence '
                   'with verify_df',
         design='7 C02'),
     'C07': dict(
         text='Theorems that each discovery rule reports the exact statistic: min/max are members and bounds of the '
              'data, lengths are attained extremes, the sign class holds and no stronger one does, max_nulls is the null '
-             'count iff 0 or 1, no_duplicates iff a string/int field has >1 non-null values all distinct, nothing but '
+             'count iff 0 or 1, no_duplicates iff a string/int field has >1 non-null values all distinct, allowed_values is '
+             'exactly the set of distinct strings (1..MAX_CATEGORIES of them), nothing but '
              'the type for empty data; MAX_CATEGORIES is regenerated from the source and pinned. discover_df and '
              'discover_db_table (SQLite) are compared with the extracted model and a direct statement of the property.',
         note='pandas / SQLite aggregation is not modelled (validated by correspondence on generated frames and tables); '
-             'the allowed_values rule is checked by correspondence and oracle.',
+             'allowed_values tightness (C07_disc_allowed_values_tight) is stated for string columns.',
         technique='Coq proof (tightness of each discovery rule) + translator-pinned threshold + differential runs',
         design='7 C07'),
     'C10': dict(
